@@ -124,8 +124,10 @@ class Daemon:
         self.errf = open(self.stderr_path, "wb")
         cmd = [binary or vlib.ACMED_DEV, "-f", "--no-pid-file", "-c", cfg_path, "--log-stderr",
                "--log-level", "debug"] + (extra_args or [])
+        cwd = os.path.join(vlib.BUILD, "scratch", "cwd")
+        os.makedirs(cwd, exist_ok=True)
         self.p = subprocess.Popen(cmd, env=e, stdout=subprocess.DEVNULL, stderr=self.errf,
-                                  stdin=subprocess.DEVNULL)
+                                  stdin=subprocess.DEVNULL, cwd=cwd)
 
     def alive(self):
         return self.p.poll() is None
